@@ -21,6 +21,7 @@ theorem nextBar_wiring (s : CommodityChannelIndex F) (b : Bar F)
             if Scalar.beq d (Scalar.lit 0 0) then Scalar.lit 0 0
             else Scalar.div (Scalar.sub (tp b) a) (Scalar.mul d (Scalar.lit 15 3))) := by
   unfold nextBar
+  try simp only [gen_helper]
   unfold tp at h1 h2 ⊢
   simp only [h1, h2]
   by_cases c : Scalar.beq d (Scalar.lit 0 0 : F) = true <;> simp [c]
@@ -29,12 +30,14 @@ theorem nextBar_wiring (s : CommodityChannelIndex F) (b : Bar F)
 theorem nextBar_none_of_sma (s : CommodityChannelIndex F) (b : Bar F)
     (h1 : s.sma.next (tp b) = none) : s.nextBar b = none := by
   unfold nextBar
+  try simp only [gen_helper]
   unfold tp at h1
   simp [h1]
 
 theorem nextBar_none_of_mad (s : CommodityChannelIndex F) (b : Bar F)
     (h2 : s.mad.next (tp b) = none) : s.nextBar b = none := by
   unfold nextBar
+  try simp only [gen_helper]
   unfold tp at h2
   cases h1 : s.sma.next (Scalar.div (Scalar.add (Scalar.add b.close b.high) b.low) (Scalar.lit 3 0 : F)) <;>
     simp [h2]
